@@ -11,7 +11,7 @@ def run_optable(prop):
     known = known_for(prop)
     ev.cov["bounds"] = ["FRAGMENT: eager binary operators * / + - != == >= > <= < applied to two event fields whose kinds are any non-empty subsets of {integer, float, bytes, boolean, null, timestamp}: 63 x 63 x 10 = 39,690 typing rows, all of them",
                         "operand payloads: all i64, all non-NaN f64 (solver); bytes / timestamp payloads do not influence the result kind or fallibility (comparison results are opaque booleans)",
-                        "NOT covered: variables, nested paths, blocks, if/else, closures, function calls, collections, literals/constant operands (the infallible-division rule), short-circuit operators (their runtime half is C08/C09)"]
+                        "NOT covered BY THE TABLE: variables, nested paths, blocks, if/else, closures, function calls, collections, literals/constant operands, short-circuit operators -- the lemma families listed below cover the state flow, fallibility and join rules of those constructs, not their result kinds (the Kind / TypeDef algebra is uninterpreted)"]
     ev.cov["trusted_base"] = ["engine T: the typing table is computed natively by the real compiler (compile_with_external on `.a OP .b`), exhaustive over the stated finite domain, regenerated on every run -- an input of the check, not a verdict",
                               "engine S: MIR semantics + std models; z3 decides the feasibility of every runtime path of try_mul/div/add/sub/ge/gt/le/lt and eq_lossy per operand-variant pair",
                               "membership of a scalar value in a scalar kind is decided by its variant"]
